@@ -8,6 +8,7 @@ package main
 import (
 	"bufio"
 	"encoding/json"
+	"fmt"
 	"io/ioutil"
 	"log"
 	"net"
@@ -49,6 +50,56 @@ func mInts(b []byte) []int {
 		r[i] = int(b[i])
 	}
 	return r
+}
+
+// TestVerifMirrorBadTarget: a mirror target the raw socket cannot send to (the limited broadcast address without
+// SO_BROADCAST: EACCES).  Nothing can be re-emitted; the collector must go on receiving and decoding.
+func TestVerifMirrorBadTarget(t *testing.T) {
+	out := os.Getenv("VERIF_OUT")
+	if out == "" || os.Getenv("VERIF_BADTARGET") == "" {
+		t.Skip("driver: VERIF_BADTARGET not set")
+	}
+	proto := os.Getenv("VERIF_PROTO")
+	logger = log.New(ioutil.Discard, "", 0)
+	opts = &Options{Logger: logger,
+		IPFIXUDPSize: 1500, IPFIXMirrorAddr: os.Getenv("VERIF_BADTARGET"), IPFIXMirrorPort: 4000, IPFIXMirrorWorkers: 1,
+		SFlowUDPSize: 1500, SFlowMirrorAddr: os.Getenv("VERIF_BADTARGET"), SFlowMirrorPort: 4000, SFlowMirrorWorkers: 1}
+	mCache = ipfix.GetCache("")
+	var qlen func() int
+	switch proto {
+	case "ipfix":
+		go mirrorIPFIXDispatcher(ipfixMCh)
+		i := &IPFIX{}
+		go i.ipfixWorker(make(chan struct{}))
+		qlen = func() int { return len(ipfixUDPCh) }
+	default:
+		go mirrorSFlowDispatcher(sFlowMCh)
+		s := &SFlow{}
+		go s.sFlowWorker(make(chan struct{}))
+		qlen = func() int { return len(sFlowUDPCh) }
+	}
+	time.Sleep(100 * time.Millisecond)
+	raddr := &net.UDPAddr{IP: net.IP{127, 0, 9, 1}, Port: 40000}
+	for k := 0; k < 40; k++ {
+		switch proto {
+		case "ipfix":
+			b := ipfixBuffer.Get().([]byte)
+			n := copy(b, []byte(fmt.Sprintf("datagram %03d for a target nobody can send to", k)))
+			ipfixUDPCh <- IPFIXUDPMsg{raddr, b[:n]}
+		default:
+			b := sFlowBuffer.Get().([]byte)
+			n := copy(b, []byte(fmt.Sprintf("datagram %03d for a target nobody can send to", k)))
+			sFlowUDPCh <- SFUDPMsg{raddr, b[:n]}
+		}
+		time.Sleep(5 * time.Millisecond)
+	}
+	deadline := time.Now().Add(3 * time.Second)
+	for qlen() > 0 && time.Now().Before(deadline) {
+		time.Sleep(5 * time.Millisecond)
+	}
+	time.Sleep(200 * time.Millisecond)
+	b, _ := json.Marshal(map[string]interface{}{"alive": true, "queue": qlen()})
+	ioutil.WriteFile(out, b, 0644)
 }
 
 func TestVerifMirror(t *testing.T) {
@@ -159,6 +210,24 @@ func TestVerifMirror(t *testing.T) {
 		if progress != "" { // if the mirror worker takes the process down, this is the burst that did it
 			b, _ := json.Marshal(map[string]interface{}{"n": cases[lo].N, "form": cases[lo].Form, "burst": hi - lo})
 			ioutil.WriteFile(progress, b, 0644)
+		}
+		if os.Getenv("VERIF_V6MIX") == "1" {
+			// short datagrams of an exporter of the other address family in between (the dispatcher gives their copies
+			// up): what the receive loop draws from the pool afterwards is still a whole buffer
+			raddr6 := &net.UDPAddr{IP: net.ParseIP("2001:db8::6"), Port: 40000}
+			for k := 0; k < 3; k++ {
+				switch proto {
+				case "ipfix":
+					b := ipfixBuffer.Get().([]byte)
+					n := copy(b, []byte("short v6 one"))
+					ipfixUDPCh <- IPFIXUDPMsg{raddr6, b[:n]}
+				case "sflow":
+					b := sFlowBuffer.Get().([]byte)
+					n := copy(b, []byte("short v6 one"))
+					sFlowUDPCh <- SFUDPMsg{raddr6, b[:n]}
+				}
+			}
+			time.Sleep(8 * time.Millisecond)
 		}
 		// back to back: the later datagrams are handled while the earlier ones still wait in the mirror queue
 		for _, c := range cases[lo:hi] {
